@@ -214,6 +214,7 @@ def concretise(run, abstract, label, configs):
             last = seq[-1]
             cls = "sim" if label == "sim" else ("reads" if last["c"] == "req" and last["route"] in READS else last.get("route", "deliver"))
             out.append({"id": "%s-%d-%s-%s-b%d-%s" % (label, i, ns["key"], store, base_i, via), "store": store, "env": c.env(), "base": c.base,
+                        "client_slash": (i + base_i) % 2 == 1,
                         "cfg": {"naming": ns["naming"], "base": c.base, "nameset": ns["key"]}, "names": list(ns["boxes"]),
                         "spellings": c.spell, "steps": steps, "_group": "%s/%s/%s" % (ns["key"], via, cls), "_abs": seq})
     return out
